@@ -162,7 +162,22 @@ Definition maybe_basic (o : oracle) (wb : bool) (ts : list token) : pres (option
            | PErr e => PErr e
            | POk r => POk (Some r)
            end
-      else POk None   (* NB: a consumed '-' is not put back (the code returns False, None as well) *)
+      else if neg then syntax_here ts1   (* repaired code: a '-' that is not followed by a NAME / NUMBER / STRING token is an error *)
+      else POk None
+  end.
+
+(* the code before the repair: the consumed '-' was silently dropped and the reference / macro parsers took over *)
+Definition maybe_basic_orig (o : oracle) (wb : bool) (ts : list token) : pres (option (out * list token)) :=
+  let neg := cur_is ts "-" in
+  match (if neg then advance wb ts else POk ts) with
+  | PErr e => PErr e
+  | POk ts1 =>
+      if in_types (ty (cur ts1)) [NAME; NUMBER; STRING]
+      then match basic_loop (S (List.length ts1)) o wb ts1 (if neg then "-" else "") with
+           | PErr e => PErr e
+           | POk r => POk (Some r)
+           end
+      else POk None
   end.
 
 Definition closer (open_ : string) : option string :=
